@@ -827,7 +827,12 @@ fn main() {
                     let out = rt.block_on(async {
                         let mut w = World::new().await;
                         let mut out = vec![];
-                        for c in chunk {
+                        for (i, c) in chunk.into_iter().enumerate() {
+                            // a fresh server every 250 cases: the fixture entries accumulate one session /
+                            // api token per case
+                            if i % 250 == 249 {
+                                w = World::new().await;
+                            }
                             let ch = check_case(&mut w, &mut drv, &eps, &c).await;
                             out.push((c, ch));
                         }
